@@ -24,6 +24,12 @@ class C01(Property):
         "DetectionRule.detect")] + [
         ("antismash/common/secmet/locations.py", "get_distance_between_locations"),
         ("antismash/common/secmet/locations.py", "locations_overlap"),
+        ("antismash/common/hmm_rule_parser/cluster_prediction.py", "apply_cluster_rules"),
+        ("antismash/common/hmm_rule_parser/cluster_prediction.py", "_extend_area_location"),
+        ("antismash/common/hmm_rule_parser/structures.py", "ProfileHit.__init__"),
+        ("antismash/common/hmm_rule_parser/structures.py", "HMMerHit.__init__"),
+        ("antismash/common/hmm_rule_parser/structures.py", "HMMerHit.from_hsp"),
+        ("antismash/common/secmet/record.py", "Record.get_cds_features_within_location"),
     ]
     RULE = ("condition trees (random depth<=5 over single/minscore/minimum/cds/group/and/or with negation; "
             "small family over profiles {a,b} in the thorough/deep tier: exhaustive for single-atom conditions, sampled for two-atom combinations) x hit assignments with "
@@ -149,8 +155,19 @@ class C01(Property):
             cond = self.rand_cond(rng, rng.choice([1, 2, 3, 4, 5]), wf)
             if cond[0] != "group" or rng.random() < 0.5:
                 cond = ["group", False, [cond]] if rng.random() < 0.9 else cond
-            yield {"kind": "detect", "genes": lay["genes"], "cutoff": cutoff, "circ": lay["circ"],
-                   "g": rng.randrange(len(lay["genes"])), "cond": cond}
+            case = {"kind": "detect", "genes": lay["genes"], "cutoff": cutoff, "circ": lay["circ"],
+                    "g": rng.randrange(len(lay["genes"])), "cond": cond}
+            # a third of the cases goes the way a run does: hits built by HMMerHit.from_hsp, the genes in a real
+            # Record, apply_cluster_rules collecting each gene's neighbourhood itself
+            spanning = any(g["loc"]["c"] and g["loc"]["parts"][0][2] * (g["loc"]["parts"][0][0] - g["loc"]["parts"][-1][0]) > 0
+                           for g in lay["genes"])
+            if rng.random() < 0.34 and (lay["circ"] or not spanning):
+                with_hits = [g["n"] for g in lay["genes"] if g["hasres"]]
+                if with_hits:
+                    case["g"] = rng.choice(with_hits)
+                    case["via"] = "apply"
+                    case["len"] = lay["length"]
+            yield case
         if deep:
             yield from self.small_scope(rng, full=(tier == "thorough"))
 
@@ -223,6 +240,10 @@ class C01(Property):
         cond = common.build_cond(case["cond"])
         cds = f"g{case['g']}"
         circ = case["circ"] if case["circ"] else None
+        if case.get("via") == "apply":
+            out = self.run_apply(case, cond, cds)
+            if out is not None:
+                return out
         try:
             try:
                 top = cond if type(cond) is rp.Conditions else rp.Conditions(False, [cond])
@@ -235,6 +256,58 @@ class C01(Property):
         except Exception as exc:  # pylint: disable=broad-except
             return {"err": err_kind(exc), "msg": str(exc)[:200]}
         anc = sorted([int(k[1:]), p] for k, ps in res.ancillary_hits.items() for p in ps)
+        return {"met": bool(res.met), "reasons": sorted(res.matches), "anc": anc}
+
+    def run_apply(self, case: Dict[str, Any], cond: Any, cds: str) -> Optional[Dict[str, Any]]:
+        """the same question asked the way a run asks it: apply_cluster_rules over a real Record with hits made by
+        HMMerHit.from_hsp; what rule.detect returned for the focus gene — evaluated in the neighbourhood the
+        real code collected — is the observation.  None when the rule cannot be built (no positive requirement)."""
+        import types
+        from antismash.common.hmm_rule_parser import cluster_prediction, rule_parser as rp
+        from antismash.common.hmm_rule_parser.structures import HMMerHit
+        from antismash.common.secmet.test.helpers import DummyCDS, DummyRecord
+        try:
+            top = cond if type(cond) is rp.Conditions else rp.Conditions(False, [cond])
+            rule = rp.DetectionRule("r", "cat", case["cutoff"], 0, top)
+        except ValueError as exc:
+            if "positive requirement" not in str(exc):
+                return {"err": err_kind(exc), "msg": str(exc)[:200]}
+            return None
+        seen: Dict[str, Any] = {}
+        original = rp.DetectionRule.detect
+
+        def spy(this: Any, cds_name: str, *args: Any, **kwargs: Any) -> Any:
+            result = original(this, cds_name, *args, **kwargs)
+            seen[cds_name] = result
+            return result
+        try:
+            circular = bool(case["circ"])
+            record = DummyRecord(seq="A" * (case["circ"] if circular else case["len"]), circular=circular)
+            results: Dict[str, Any] = {}
+            for g in case["genes"]:
+                name = f"g{g['n']}"
+                record.add_cds_feature(DummyCDS(location=common.make_location(g["loc"]), locus_tag=name,
+                                                translation="M" * 3))
+                if g["hasres"]:
+                    results[name] = [HMMerHit.from_hsp(types.SimpleNamespace(
+                        hit_id=name, query_id=p, query_start=1, query_end=9, evalue=1e-10, bitscore=float(sc)), 5)
+                        for p, sc in g["hits"]]
+            rp.DetectionRule.detect = spy     # type: ignore
+            try:
+                by_cds, by_rule = cluster_prediction.apply_cluster_rules(record, results, [rule])
+            finally:
+                rp.DetectionRule.detect = original   # type: ignore
+        except Exception as exc:  # pylint: disable=broad-except
+            return {"err": err_kind(exc), "msg": str(exc)[:200]}
+        if cds not in seen:
+            return {"err": "not-evaluated", "msg": f"{cds} has results but apply_cluster_rules never evaluated it"}
+        res = seen[cds]
+        anc = sorted([int(k[1:]), p] for k, ps in res.ancillary_hits.items() for p in ps)
+        reported = bool(res.met and res.matches)
+        # what is handed on must contain what was found for the gene (a gene that does not anchor may still be
+        # listed, as an ancillary gene of a neighbour)
+        if reported and not (cds in by_rule.get("r", set()) and set(res.matches) <= by_cds.get(cds, {}).get("r", set())):
+            return {"err": "report-differs", "msg": f"detect gave {res.met}/{sorted(res.matches)}, reported {dict(by_rule)}"}
         return {"met": bool(res.met), "reasons": sorted(res.matches), "anc": anc}
 
     def driver_line(self, case: Dict[str, Any], obs: Dict[str, Any]) -> Optional[Dict[str, Any]]:
@@ -264,7 +337,8 @@ class C01(Property):
         depth = common.cond_depth(case["cond"])
         tags = ("met" if obs["met"] else "unmet", "anchors" if anchors else "no-anchor",
                 "circular" if case["circ"] else "linear", f"depth{min(depth, 6)}",
-                "in-scope" if scope else "out-of-scope", "anc" if obs["anc"] else "no-anc")
+                "in-scope" if scope else "out-of-scope", "anc" if obs["anc"] else "no-anc",
+                "via-apply" if case.get("via") == "apply" else "via-detect")
         return Judgement(corr, spec_ok, in_scope=bool(scope), nontrivial=(drv["near"] > 0 and depth >= 2),
                          tags=tags, detail=detail)
 
